@@ -4,7 +4,7 @@ from __future__ import annotations
 import ast as _ast
 
 from ..common import all_conds, all_events, cell_range_fn, conds_at, nshow, outer_field, own_methods, paths
-from ..expr import C, SELF, norm, show, strip_epochs, walk
+from ..expr import C, SELF, norm, rowform, show, strip_epochs, walk
 from ..intervals import ALL, EQ, GT, LT, Intervals, fmt_iv, join, path_orderings
 from ..model import AnalysisError
 
@@ -134,7 +134,7 @@ def check(prog, rep, tier):
                             f"byte index is {nshow(index)}, expected {nshow(byte)}", loc)
                     continue
                 if kind == "store":
-                    v = strip_epochs(value)
+                    v = strip_epochs(norm(rowform(value)))
                     rd = strip_epochs(("sub", ("f", SELF, ARR, 0), byte, 0))
                     want_set = norm(("bin", "|", rd, mask))
                     want_clr = norm(("bin", "&", rd, ("un", "~", mask)))
@@ -169,9 +169,9 @@ def check(prog, rep, tier):
                 elif kind == "read" and value is not None and e is not None and e.kind == "return":
                     rd = strip_epochs(("sub", ("f", SELF, ARR, 0), byte, 0))
                     probe = norm(("bin", "&", rd, mask))
-                    v = strip_epochs(value)
+                    v = strip_epochs(norm(rowform(value)))
                     good = [("phi", ("cmp", "==", probe, C(0)), C(0), C(1)), ("phi", ("cmp", "!=", probe, C(0)), C(1), C(0)),
-                            ("cmp", "!=", probe, C(0)),
+                            ("cmp", "!=", probe, C(0)), ("phi", probe, C(1), C(0)), ("phi", ("un", "not", probe), C(0), C(1)),
                             norm(("bin", "&", ("bin", ">>", rd, ("bin", "%", ip, C(8))), C(1)))]  # (old >> (idx%8)) & 1: the same bit
                     if v in good:
                         rep.ok("C20.addressing", f"{CLS}.{f.src_name}: read returns (old&m)!=0")
@@ -212,6 +212,9 @@ def check(prog, rep, tier):
                         v = strip_epochs(value)
                         ok = v[0] == "nary" and v[1] == "*" and len(v[2]) == 2 and L in v[2] and \
                             any(x[0] == "newb" and x[1] == "array" and len(x[3]) == 2 and x[3][0] == C("B") and x[3][1] == ("lst", (C(0),)) for x in v[2])
+                        # ... or array('B', bytes(size_bytes)): bytes(n) is n zero bytes
+                        ok = ok or (v[0] == "newb" and v[1] == "array" and len(v[3]) == 2 and v[3][0] == C("B")
+                                    and v[3][1] == ("call", ("g", "bytes"), (L,), ()))
                 if ok:
                     rep.ok("C20.full-range", f"{CLS}.{f.src_name}: {kind} over range(size_bytes)")
                 else:
@@ -257,6 +260,17 @@ def check(prog, rep, tier):
                         rep.bad("C20.full-range", f"{CLS}.{name}", f"check_bit({nshow(a)})",
                                 f"{name} reads bits {nshow(a)}, not every element of range(size)", e.where())
                         good = None
+        # the answer is recomputed from the bits: it may not come from a remembered field that some writer does not maintain
+        for p in ps:
+            if p.exit[0] != "return" or good is None:
+                continue
+            stale = sorted({n[2] for n in walk(p.exit[1]) if n[0] == "f" and n[1] == SELF and n[2] not in (ARR, "_size", "_size_bytes")})
+            if stale:
+                rep.bad("C20.full-range", f"{CLS}.{name}", f"returns remembered {stale}",
+                        f"{name} can return a value read from {stale} instead of recomputing it from the bits: every writer of the byte array (item assignment, set_bit, clear_bit, clear) "
+                        "would have to keep that field exact, and the result disagrees with the bits as soon as one does not", f.where(p.exit[2]))
+                good = None
+                break
         if good:
             rep.ok("C20.full-range", f"{CLS}.{name}: check_bit over range(size)")
         elif good is False:
